@@ -87,6 +87,8 @@ def _structure(
     # The set of all known dependencies to a node
     node_deps: OrderedDict[PyHash, Set[PyHash]] = OrderedDict()
     deps: OrderedDict[Tuple[PyHash, PyHash], Edge] = OrderedDict()
+    # The loads are kept apart: a function may both call the producer of a path and load this path.
+    load_deps: OrderedDict[Tuple[PyHash, PyHash], Edge] = OrderedDict()
 
     # Returns the list of head nodes:
     # All the nodes that can be evaluated independently inside a function.
@@ -165,9 +167,9 @@ def _structure(
                 if sig2 not in nodes:
                     nodes[sig2] = Node(p, sig2)
                 k = (sig2, res_node.node_hash)
-                if k not in deps:
-                    deps[k] = Edge(p, res_node.path, IndirectEdge)
+                if k not in load_deps:
+                    load_deps[k] = Edge(p, res_node.path, IndirectEdge)
             return [res_node]
 
     traverse(fis)
-    return Graph(list(nodes.values()), list(deps.values()))
+    return Graph(list(nodes.values()), list(deps.values()) + list(load_deps.values()))
